@@ -76,6 +76,12 @@ func newSchemaValidator(schema *spec.Schema, rootSchema interface{}, root string
 
 	if rootSchema == nil {
 		rootSchema = schema
+		if schema.Ref.String() != "" {
+			// expanding a $ref held by the root schema itself replaces that schema, and with it the definitions
+			// its references point to: these are resolved against the schema as it was given
+			given := *schema
+			rootSchema = &given
+		}
 	}
 
 	if schema.ID != "" || schema.Ref.String() != "" || schema.Ref.IsRoot() {
